@@ -43,6 +43,8 @@ def register(eng):
         x = deref(a[0])
         if isinstance(x, Agg) and x.ty in ("BoundedBytes", "Bytes"):
             return x.fields[0] if dst == "Vec" else Agg(dst, None, 0, [x.fields[0]])
+        if isinstance(x, Opaque):
+            return x if dst == "Vec" else Agg(dst, None, 0, [x])       # bytes of an uninterpreted encoding
         if dst == "Vec":
             return VecM(list(x.items))
         return Agg(dst, None, 0, [VecM(list(x.items))])
